@@ -18,7 +18,9 @@ def run(tier, seed):
     netcommon.optimizer_selftest(v, wd)
     _, rep2 = netcommon.mc_and_replay(v, wd, "c01d", 3 if tier == "quick" else 4, False)
     # explicit optimise on a live engine, inside histories (Blocker::optimize)
-    _, rep3, _ = enginecommon.histories(v, wd, "blocker", 4 if tier == "quick" else 5)
+    _, rep3, _ = enginecommon.histories(v, wd, "blocker", 4)
+    if tier == "thorough":
+        enginecommon.histories(v, wd, "blocker", 5, ops="all5")
     runs, nops = (2, 600) if tier == "quick" else (8, 3000)
     enginecommon.longhist_stage(v, wd, seed, "blocker", runs, nops)
     vlib.require(rep1["nontrivial"] > 100 and rep3["nontrivial"] > 50, "replay too small")
